@@ -771,6 +771,8 @@ func (c *converter) addDefaultHostBackend(source *annotations.Source, fullSvcNam
 	match := hatypes.MatchBegin
 	if fr := c.haproxy.Hosts().FindHost(hostname); fr != nil {
 		if fr.FindPath(uri, match) != nil {
+			// tracking, so this ingress is parsed again if the owner of the path changes
+			c.tracker.TrackNames(source.Type, source.FullName(), convtypes.ResourceHAHostname, hostname)
 			return fmt.Errorf("path %s was already defined on default host", uri)
 		}
 	}
@@ -873,12 +875,17 @@ func (c *converter) addBackendWithClass(source *annotations.Source, pathLink *ha
 	ssvcName := strings.Split(fullSvcName, "/")
 	namespace := ssvcName[0]
 	svcName := ssvcName[1]
+	var port *api.ServicePort
 	if svcPort == "" {
 		// if the port wasn't specified, take the first one
 		// from the api.Service object
-		svcPort = svc.Spec.Ports[0].TargetPort.String()
+		if len(svc.Spec.Ports) > 0 {
+			port = &svc.Spec.Ports[0]
+			svcPort = port.TargetPort.String()
+		}
+	} else {
+		port = convutils.FindServicePort(svc, svcPort)
 	}
-	port := convutils.FindServicePort(svc, svcPort)
 	if port == nil {
 		if svc.Spec.Type != api.ServiceTypeExternalName || len(svc.Spec.Ports) > 0 {
 			return nil, fmt.Errorf("port not found: '%s'", svcPort)
